@@ -109,6 +109,24 @@ def resolve_ub_sites(sites):
 _BUILD_DIRS = []
 
 
+def sweep_stale_semaphores():
+    """ompio's sharedfp/sm component keeps a POSIX semaphore named after the file while it is open; an input that ends the
+    process (sanitizer crash, abort) leaves /dev/shm/sem.OMPIO_pncfz.<pid>.nc behind.  Remove those of dead processes."""
+    for p in glob.glob("/dev/shm/sem.OMPIO_pncfz.*.nc"):
+        m = re.search(r"pncfz\.(\d+)\.nc$", p)
+        if not m:
+            continue
+        try:
+            os.kill(int(m.group(1)), 0)
+        except ProcessLookupError:
+            try:
+                os.unlink(p)
+            except OSError:
+                pass
+        except OSError:
+            pass
+
+
 def scratch_root():
     base = "/dev/shm" if os.path.isdir("/dev/shm") and os.access("/dev/shm", os.W_OK) else "/tmp"
     return tempfile.mkdtemp(prefix="pnc19.%d." % os.getpid(), dir=base)
@@ -446,6 +464,19 @@ class CtxLike:
         self.pools = {}
 
 
+def tree_changed(builds):
+    """True if the sources the builds were made from (VERIF_REPO tree or /verif/harness) changed since the build: line numbers in
+    sanitizer reports, the resolved UB sites and the binaries then no longer describe one tree"""
+    try:
+        import importlib.util
+        spec = importlib.util.spec_from_file_location("verif_build", os.path.join(VERIF, "tools", "build.py"))
+        B = importlib.util.module_from_spec(spec)
+        spec.loader.exec_module(B)
+        return os.path.basename(builds["asan"]) != "asan-" + B.tree_hash("asan")
+    except Exception:
+        return False
+
+
 def save_replay(case, problems, name=None, extra=None):
     rdir = os.path.join(VERIF, "replays", PROP)
     os.makedirs(rdir, exist_ok=True)
@@ -496,6 +527,7 @@ def main():
         rp = json.load(open(a.replay))
         probs = [p for p in run_case(ctx, rp["case"]) if not ctx.known.match(p)]
         ctx.close()
+        sweep_stale_semaphores()
         if probs:
             for p in probs[:5]:
                 print("  problem:", p.get("msg"))
@@ -529,6 +561,11 @@ def main():
     root = scratch_root()
     try:
         cov, found = campaign(ctx, a, builds, root, exclusions, notes)
+        if found and tree_changed(builds):
+            notes.append("the source tree (or /verif/harness) changed while the campaign was running: %d campaign finding(s) are "
+                         "inconclusive and were dropped (first: %s); run the check again" % (len(found), found[0]["problems"][0]["msg"][:200]))
+            cov["inconclusive_failures"] = cov.get("inconclusive_failures", 0) + len(found)
+            found = []
         # ---- triage of campaign findings: 3x replay, save
         seen_sig = set()
         for fd in found:
@@ -558,6 +595,7 @@ def main():
             violations.append((path, last))
     finally:
         shutil.rmtree(root, ignore_errors=True)
+        sweep_stale_semaphores()
 
     # ---- part B
     try:
@@ -613,8 +651,8 @@ def campaign(ctx, a, builds, root, exclusions, notes):
     open(dict_path, "w").write(S.fuzz_dictionary())
 
     nfz = 0 if a.no_fuzz else {"quick": 4, "thorough": 8}[tier]
-    runs = {"quick": 10000, "thorough": 40000000}[tier]        # per fuzz worker
-    max_time = {"quick": 75, "thorough": 900}[tier]
+    runs = {"quick": 15000, "thorough": 40000000}[tier]        # per fuzz worker
+    max_time = {"quick": 70, "thorough": 900}[tier]
     nw = max(1, min(a.workers, 16))
     with ThreadPoolExecutor(max_workers=nw + nfz) as ex:
         ffut = [ex.submit(fuzz_worker, i, builds["fuzz"], fseeds_dir, dict_path, root, runs, max_time, a.seed, exclusions) for i in range(nfz)]
@@ -679,9 +717,8 @@ def campaign(ctx, a, builds, root, exclusions, notes):
         for c in r["crashes"]:
             c["problem"]["msg"] += " [seed %s, %s, field %s]" % (r["name"], c["desc"], desc_field(fmap, c["desc"]))
             found.append({"origin": "enum:%s:%s" % (r["name"], c["desc"]), "bytes": c["bytes"], "problems": [c["problem"]]})
-        if r["samples"] and len(samples) < 5:
-            for s in r["samples"][:1]:
-                samples.append({"seed": r["name"], "input": s["desc"], "open_status": s["open_status"], "hex": s["hex"]})
+        for s in r["samples"]:
+            samples.append({"seed": r["name"], "input": s["desc"], "open_status": s["open_status"], "hex": s["hex"]})
     for k, ps in per_seed.items():
         ps["exhaustive_modulo_exclusions"] = bool(ps["domain"] is not None and ps["chunks"] == ps["chunks_complete"] and ps["visited"] == ps["domain"])
         ps["exhaustive"] = bool(ps["exhaustive_modulo_exclusions"] and ps["skipped_excluded"] == 0)
@@ -696,7 +733,7 @@ def campaign(ctx, a, builds, root, exclusions, notes):
         fz["features"].append(r["ft"])
         fz["corpus"].append(r["corpus"])
         notes += r["notes"]
-        if r["budget_hit"]:
+        if r["budget_hit"] and tier == "quick":      # thorough: the budget IS the time (8 workers x 15 min)
             notes.append("fuzz worker %d stopped by its time budget after %d of %d runs (inconclusive for the rest, not a failure)" % (i, r["execs"], runs))
         errors.update(r["errors"])
         for k in ("skipped_ndims", "skipped_att_nelems", "skipped_neg64", "allowed"):
@@ -726,8 +763,24 @@ def campaign(ctx, a, builds, root, exclusions, notes):
         except Exception:
             pass
     distinct = int(len(np.unique(np.concatenate(hs)))) if hs else 0
+    # per named exclusion: inputs skipped by its filter + (enumeration) failures counted instead of reported under its keys
+    skipname = {"ndims": "skipped_ndims", "att_nelems": "skipped_att_nelems", "neg64": "skipped_neg64"}
     for name in exclusions:
-        classes["excluded_" + name] += 0
+        e = EXCLUSIONS[name]
+        n = 0
+        for sk in e.get("skip", {}):
+            n += classes.get("excluded_enum_" + skipname[sk], 0) + classes.get("excluded_fuzz_" + skipname[sk], 0)
+        for key in e.get("allow", []) + resolve_ub_sites(e.get("allow_ub", [])):
+            n += classes.get("excluded_key_" + key, 0)
+        if e.get("excuse_declared"):
+            n += classes.get("excluded_key_resource:heap", 0) + classes.get("excluded_key_resource:header_reads", 0)
+        classes["excluded_" + name] = n
+    picked, seen_status = [], set()
+    for smp in sorted(samples, key=lambda x: len(x["hex"])):
+        if smp["open_status"] not in seen_status and len(smp["hex"]) >= 24:
+            seen_status.add(smp["open_status"])
+            picked.append(smp)
+    samples = picked
     cov = {"evaluations": int(evaluations), "distinct_nontrivial": distinct, "rule": RULE, "samples": samples[:5],
            "classes": dict(sorted(classes.items())), "open_error_histogram": dict(sorted(errors.items(), key=lambda kv: -kv[1])),
            "enumeration": per_seed, "exhaustive": all(v["exhaustive"] for v in per_seed.values()),
